@@ -143,7 +143,7 @@ fn chunk(src: &mut Src, s: &str) -> Vec<Call> {
     calls
 }
 
-fn gen_case(src: &mut Src, _i: usize) -> Case {
+pub fn gen_case(src: &mut Src, _i: usize) -> Case {
     let (cols, rows) = if src.chance(1, 25) { (80, 24) } else { gen::small_size(src) };
     let limit = *src.pick(&super::c13::LIMITS[..10]);
     let mut g = G::new(cols, rows).no_ris().with_raw(2);
